@@ -78,6 +78,25 @@ def entries():
         "SO2(theta)": ([A], lambda a: SO2(a)),
         "SO2(ndarray[theta])": ([A], lambda a: SO2(np.array([a]))),
         "Twist3.Rx": ([A], lambda a: Twist3.Rx(a)), "Twist3.Ry": ([A], lambda a: Twist3.Ry(a)), "Twist3.Rz": ([A], lambda a: Twist3.Rz(a)),
+        # documented options of the same entries: degrees, and the translation keyword of the homogeneous rotations
+        "rotx(deg)": ([A], lambda a: b.rotx(a, "deg")), "roty(deg)": ([A], lambda a: b.roty(a, unit="deg")),
+        "rotz(deg)": ([A], lambda a: b.rotz(a, unit="deg")),
+        "trotx(deg)": ([A], lambda a: b.trotx(a, unit="deg")), "troty(deg)": ([A], lambda a: b.troty(a, "deg")),
+        "trotz(deg)": ([A], lambda a: b.trotz(a, unit="deg")),
+        "trotx(t=numbers)": ([A], lambda a: b.trotx(a, t=[1, 2, 3])), "troty(t=numbers)": ([A], lambda a: b.troty(a, t=(1.5, -2.0, 0.25))),
+        "trotz(t=numbers)": ([A], lambda a: b.trotz(a, t=np.array([1.0, 2.0, 3.0]))),
+        "trotx(t=)": ([A, L, L, L], lambda a, x, y, z: b.trotx(a, t=[x, y, z])), "troty(t=)": ([A, L, L, L], lambda a, x, y, z: b.troty(a, t=(x, y, z))),
+        "trotz(t=)": ([A, L, L, L], lambda a, x, y, z: b.trotz(a, t=[x, y, z])),
+        "eul2r(deg)": ([A, A, A], lambda a, bb, c: b.eul2r(a, bb, c, unit="deg")),
+        "eul2tr(deg)": ([A, A, A], lambda a, bb, c: b.eul2tr(a, bb, c, unit="deg")),
+        "eul2r([],deg)": ([A, A, A], lambda a, bb, c: b.eul2r([a, bb, c], unit="deg")),
+        "eul2tr((),deg)": ([A, A, A], lambda a, bb, c: b.eul2tr((a, bb, c), unit="deg")),
+        "SO3.Rx(deg)": ([A], lambda a: SO3.Rx(a, unit="deg")), "SE3.Ry(deg)": ([A], lambda a: SE3.Ry(a, "deg")),
+        "SE3.Rx(t=numbers)": ([A], lambda a: SE3.Rx(a, t=[1, 2, 3])), "SE3.Rz(t=)": ([A, L, L, L], lambda a, x, y, z: SE3.Rz(a, t=[x, y, z])),
+        "SO3.Eul(deg)": ([A, A, A], lambda a, bb, c: SO3.Eul([a, bb, c], unit="deg")),
+        "SE3.Eul(deg)": ([A, A, A], lambda a, bb, c: SE3.Eul([a, bb, c], unit="deg")),
+        "SO3.RPY(deg)": ([A, A, A], lambda a, bb, c: SO3.RPY([a, bb, c], unit="deg")),
+        "SE3.RPY(deg)": ([A, A, A], lambda a, bb, c: SE3.RPY([a, bb, c], unit="deg")),
         # symbolic pose expressions
         "SE3.Rx*SE3.Tx": ([A, L], lambda a, x: SE3.Rx(a) * SE3.Tx(x)),
         "SE3.Rz*SE3.Ry*SE3.Rx": ([A, A, A], lambda a, bb, c: SE3.Rz(a) * SE3.Ry(bb) * SE3.Rx(c)),
